@@ -1,5 +1,6 @@
 """The load/dump sweeps shared by C01 C02 C04 C06 C07: one pass computes the 6-vector of outcomes per (type, datum)
 and hands it to the oracle of the calling check."""
+import collections
 import linecache
 
 from adaptix import ProviderNotFoundError
@@ -7,7 +8,7 @@ from adaptix import ProviderNotFoundError
 from . import matrix
 from .matrix import DEBUGS, MODES, Err, data_for, hint_of, retort_for, run
 from .report import Report
-from .space import dumper_exists, has_multi_union, show, to_json, values_of
+from .space import ITER_IMPL, SET_LIKE, dumper_exists, has_multi_union, show, to_json, unwrap, values_of
 
 
 class Ctx:
@@ -78,6 +79,15 @@ def dump_sweep(types, oracle, report: Report, on_creation_error=None):
             if on_creation_error is not None:
                 on_creation_error(ts, failed, report)
             continue
+        # "Dumper produces the tuple (or list for list children)": the same elements handed over in another container kind
+        # must dump to the same documented outer form
+        u = unwrap(ts)
+        if u[0] in ITER_IMPL and u[0] not in SET_LIKE:
+            base = next((v for v in values if len(v) > 0), None)
+            if base is not None:
+                for kind in (list, tuple, collections.deque):
+                    if type(base) is not kind:
+                        values = [*values, kind(base)]
         for i, x in enumerate(values):
             ctx = Ctx()
             ctx.ts, ctx.datum, ctx.report, ctx.loaders = ts, x, report, dumpers
